@@ -142,6 +142,50 @@ func evalOracles(sc *Scenario, all []obs, rec *Rec) {
 	_ = gapless
 
 	// C19: store-before-send and veto, per op
+	refusingOut := map[int]bool{}
+	for _, o := range append(append([]Op{}, sc.Pre...), sc.Ops...) {
+		if o.Kind == "REGOUT" && !o.Flag {
+			refusingOut[o.ID] = true
+		}
+	}
+	// a batch (the answer to a ResendRequest) ends at the first message that a failing save or a
+	// refusing handler stops: nothing is saved, shown to a handler or transmitted after it
+	checkBatchStops := func(i int, o *obs) {
+		stopAt, stopSeq := -1, 0
+		for k, it := range o.Items {
+			if strings.HasPrefix(it, "S") && strings.HasSuffix(it, "!") {
+				stopAt = k
+				stopSeq, _ = strconv.Atoi(it[1 : len(it)-1])
+				break
+			}
+			if strings.HasPrefix(it, "O") {
+				parts := strings.SplitN(it[1:], ":", 2)
+				id, _ := strconv.Atoi(parts[0])
+				if len(parts) == 2 && refusingOut[id] {
+					stopAt = k
+					stopSeq, _ = strconv.Atoi(parts[1])
+					break
+				}
+			}
+		}
+		if stopAt < 0 {
+			return
+		}
+		for _, it := range o.Items[stopAt+1:] {
+			if strings.HasPrefix(it, "S") || strings.HasPrefix(it, "O") {
+				setFail(rec, "C19", fmt.Sprintf("op %d: the batch went on (%s) after message %d had been refused (%s)", i, it, stopSeq, o.Items[stopAt]))
+				break
+			}
+		}
+		for _, w := range o.Wires {
+			sv, _ := fget(tokenize(w), "34")
+			n, _ := strconv.Atoi(sv)
+			if n >= stopSeq && mtype(w) != "3" {
+				setFail(rec, "C19", fmt.Sprintf("op %d: message %d was transmitted although the batch had been stopped at message %d (%s)", i, n, stopSeq, o.Items[stopAt]))
+				break
+			}
+		}
+	}
 	checkC19 := func(i int, o *obs) {
 		saved := map[int]bool{}
 		failed := map[int]bool{}
@@ -166,6 +210,19 @@ func evalOracles(sc *Scenario, all []obs, rec *Rec) {
 			}
 			if failed[n] && !saved[n] {
 				setFail(rec, "C19", fmt.Sprintf("op %d: message %d transmitted although saving it failed", i, n))
+			}
+		}
+	}
+
+	acceptableBefore := false
+	c07Types := func(i int, op *Op, types []string, isLogged bool) {
+		for k, t := range types {
+			if t != "A" && t != "5" && t != "3" {
+				// the Logon answer and a gap ResendRequest belong to the successful logon itself
+				if isLogged && (t == "2") {
+					continue
+				}
+				setFail(rec, "C07", fmt.Sprintf("op %d (%s): message type %q sent although no acceptable Logon has been delivered (wire %d)", i, op.Label, t, k))
 			}
 		}
 	}
@@ -206,20 +263,18 @@ func evalOracles(sc *Scenario, all []obs, rec *Rec) {
 		}
 		checkWires(i, &o, isResend)
 		checkC19(i, &o)
-
-		// C07: nothing but Logon/Logout/Reject before the first successful logon
-		if !everLogged && op.Kind != "SEND" && !anyRefusal {
-			for k, t := range types {
-				if t != "A" && t != "5" && t != "3" {
-					// the Logon answer and a gap ResendRequest belong to the successful logon itself
-					if isLogged && (t == "2") {
-						continue
-					}
-					setFail(rec, "C07", fmt.Sprintf("op %d (%s): message type %q sent before any successful logon (wire %d)", i, op.Label, t, k))
-				}
-			}
+		if isResend && before.State == 1 {
+			checkBatchStops(i, &o)
 		}
 
+		// C07: nothing but Logon/Logout/Reject while the history contains no acceptable Logon (the
+		// quantifier of the property is over the inbound history, not over what the session believes)
+		if !acceptableBefore && !everLogged && op.Kind != "SEND" && !anyRefusal {
+			c07Types(i, op, types, isLogged)
+		} else if !acceptableBefore && op.Kind != "SEND" && !anyRefusal {
+			// the session considers itself logged on although no acceptable Logon was delivered
+			c07Types(i, op, types, false)
+		}
 		if op.Kind == "IN" && !anyRefusal {
 			lbl := op.Label
 			// C06
@@ -296,6 +351,25 @@ func evalOracles(sc *Scenario, all []obs, rec *Rec) {
 					if o.State != before.State {
 						setFail(rec, "C06", fmt.Sprintf("op %d (%s): state changed %d -> %d", i, lbl, before.State, o.State))
 					}
+				}
+			}
+			// C10, initiating side: the peer's Logon answer numbered beyond the next expected number
+			if !acceptor && lbl == "logon-answer" && before.State == 2 && isLogged && op.Seq >= 0 {
+				found := false
+				for k, t := range types {
+					if t == "2" {
+						fs := tokenize(o.Wires[k])
+						b, _ := fget(fs, "7")
+						e, _ := fget(fs, "16")
+						if op.Seq > before.CntIn+1 && b == strconv.Itoa(before.CntIn+1) && e == "0" {
+							found = true
+						} else {
+							setFail(rec, "C10", fmt.Sprintf("op %d: ResendRequest %s..%s on a Logon answer %d after %d", i, b, e, op.Seq, before.CntIn))
+						}
+					}
+				}
+				if op.Seq > before.CntIn+1 && !found {
+					setFail(rec, "C10", fmt.Sprintf("op %d: Logon answer %d after %d did not trigger a ResendRequest for %d..", i, op.Seq, before.CntIn, before.CntIn+1))
 				}
 			}
 			// C16: invalid administrative messages
@@ -417,6 +491,9 @@ func evalOracles(sc *Scenario, all []obs, rec *Rec) {
 		}
 		if isLogged {
 			everLogged = true
+		}
+		if op.Kind == "IN" && (op.Label == "logon-good" || (!acceptor && op.Label == "logon-answer")) {
+			acceptableBefore = true
 		}
 	}
 	_ = selfLogout
